@@ -69,9 +69,13 @@ def r1_indentation_everywhere(ctx):
               rd.assign("DEFAULT_MODALITY"), "DEFAULT_MODALITY = "
               "'force-distance'", "default modality changed")
     cls = d.get("data_classes_by_modality")
+    # the class table must name the modality literally: DEFAULT_MODALITY is
+    # a documented user setting (None = all modalities) and must not decide
+    # which class represents force-distance data
     ok = isinstance(cls, ast.Dict) and cls.keys and all(
         norm(v) == "Indentation" for v in cls.values) and \
-        "force-distance" in [const_str(k) for k in cls.keys]
+        "force-distance" in [const_str(k) for k in cls.keys
+                             if not getattr(k, "_from_const", None)]
     if isinstance(cls, ast.DictComp) and len(cls.generators) == 1:
         g = cls.generators[0]
         from ..symres import Resolver
